@@ -23,6 +23,11 @@ type SlotScope struct {
 	// Slots maps slot names to their content.
 	// Empty string key is the default slot.
 	Slots map[string]*SlotContent
+
+	// Parent is the slot scope in effect where the slot content was written
+	// (the includer's); supplied content is evaluated against it, so a <slot>
+	// inside supplied content refers to the includer's own slots.
+	Parent *SlotScope
 }
 
 // NewSlotScope creates a new SlotScope for a component.
@@ -102,14 +107,23 @@ func (v *Vue) evalSlot(ctx VueContext, node *html.Node, slotScope *SlotScope) ([
 				}
 
 				// Evaluate the template content (children of the template)
-				children, err := v.evaluateChildren(ctx, slotContent.TemplateNode, 0)
+				contentCtx := ctx
+				contentCtx.SlotScope = slotScope.Parent
+				children, err := v.evaluateChildren(contentCtx, slotContent.TemplateNode, 0)
 				if err != nil {
 					return nil, err
 				}
 				result = append(result, children...)
 			} else {
-				// Use the provided content as-is
-				result = append(result, slotContent.Nodes...)
+				// Plain children are template content too: evaluate them (this
+				// also gives every use of the slot its own nodes).
+				contentCtx := ctx
+				contentCtx.SlotScope = slotScope.Parent
+				children, err := v.evaluate(contentCtx, slotContent.Nodes, 0)
+				if err != nil {
+					return nil, err
+				}
+				result = append(result, children...)
 			}
 
 			return result, nil
